@@ -319,7 +319,10 @@ func (e *diskEngine) runCase(dc *DiskCase, f *Findings) *CaseResult {
 }
 
 func (e *diskEngine) sweepNode(w *World, n *Node, st *State, dc *DiskCase, stats *Stats, report func(*Node, string, string, DiskFault)) uint64 {
-	orig := diskInst{acc: n.acc, pol: n.pol, mp: n.mp}
+	orig := diskInst{acc: n.acc, pol: n.pol}
+	if n.mp != nil {
+		orig.mp, orig.acc = n.mp.m, n.mp.m
+	}
 	seed := mix64(dc.Seed ^ uint64(n.idx+1)*0x9e3779b1)
 	only := dc.Fault
 	want := func(kind string) bool { return only == nil || only.Kind == kind }
